@@ -213,6 +213,11 @@ func (c *c11Case) Run(ctx *core.Ctx) {
 			"slot-named":  `<slot name="x">q</slot>`,
 			"slot-in-inc": `<template include="comp.vuego"><slot></slot></template>`,
 			"self-inc":    `<template include="comp.vuego"><template #x><slot name="x"></slot></template><slot></slot></template>`,
+			// content whose evaluation hands back a node of its own (a <template v-html>, a kept <template>)
+			"tmpl-vhtml":       `<template v-html="h"></template>`,
+			"tmpl-vhtml-mixed": `<b>z</b><template v-html="h"></template><i>y</i>`,
+			"tmpl-keep":        `<template v-keep><u>k</u></template>`,
+			"tmpl-vars":        `<template :q="two"></template><p v-for="i in q">{{ i }}</p>`,
 		}
 		content := contents[c.Content]
 		var supplied string
@@ -238,7 +243,7 @@ func (c *c11Case) Run(ctx *core.Ctx) {
 			files["layouts/l.vuego"] = `<main><slot name="x">lfb</slot><slot></slot><div v-html="content"></div><template include="comp.vuego"></template></main>`
 		}
 		ctx.Eval(1)
-		err := vuego.NewFS(files.FS()).Load(page).Fill(map[string]any{"two": []int{1, 2}}).Render(bg, &buf)
+		err := vuego.NewFS(files.FS()).Load(page).Fill(map[string]any{"two": []int{1, 2}, "h": "<em>hi</em>"}).Render(bg, &buf)
 		ctx.Outcome(fmt.Sprint(err != nil))
 	case "source":
 		src := c.Src
@@ -336,7 +341,7 @@ func init() {
 					}
 				}
 			}
-			for _, content := range []string{"slot", "slot-fb", "slot-named", "slot-in-inc", "self-inc"} {
+			for _, content := range []string{"slot", "slot-fb", "slot-named", "slot-in-inc", "self-inc", "tmpl-vhtml", "tmpl-vhtml-mixed", "tmpl-keep", "tmpl-vars"} {
 				for _, supply := range []string{"plain", "vslot", "hash-x", "both"} {
 					for _, comp := range []string{"default", "named", "twice", "infor"} {
 						for _, depth := range []string{"top", "middle", "layout"} {
